@@ -603,7 +603,8 @@ Step(mm) ==
                              ELSE IF Has(SPURIOUS) THEN (IF val > 0 /\ Dead(w, to) THEN 25000 ELSE 0)
                              ELSE (IF ~w[to].ex THEN 25000 ELSE 0)
                      dlg == IF Has(PRAGUE) THEN DelegOf(w[to].code) ELSE 0
-                     cdel == IF dlg # 0 THEN (IF Warm(mm, dlg) THEN 100 ELSE 2600) ELSE 0
+                     \* (the call target itself has just been accessed: a self-delegation finds it warm)
+                     cdel == IF dlg # 0 THEN (IF Warm(mm, dlg) \/ dlg = to THEN 100 ELSE 2600) ELSE 0
                      c == cm1 + cm2 + cacc + cval + cnew + cdel IN
                  IF big THEN (IF f.gas < FarCost(f.mem) THEN Halt(mm) ELSE Cut(mm))
                  ELSE IF f.gas < c THEN Halt(mm)
